@@ -313,7 +313,7 @@ def run_driver(behaviours, wd, flavour="plain"):
         env.update({"RELAY_DATA_LIMIT_MB": "0", "UBSAN_OPTIONS": "print_stacktrace=1:halt_on_error=1",
                     "ASAN_OPTIONS": "allocator_may_return_null=1:max_allocation_size_mb=96:detect_leaks=0:abort_on_error=0"})
     all_lines = []
-    start, rounds = 0, 0
+    start, rounds, hangs = 0, 0, 0
     while start < len(behaviours) and rounds < 12:
         rounds += 1
         script = os.path.join(wd, "script-%d.txt" % rounds)
@@ -348,6 +348,11 @@ def run_driver(behaviours, wd, flavour="plain"):
                 all_lines.append(json.dumps({"op": "crash", "kind": "exit-%d" % rc, "detail": out[-1500:]}))
         log("[driver] %s driver stopped in behaviour %d (rc=%d); resuming after it" % (flavour, start + nres, rc))
         start += nres
+        if rc == 70:
+            hangs += 1
+            if hangs >= 3:       # each hang costs the watchdog's two minutes; three of them settle the matter for this group
+                log("[driver] %s: three behaviours hung the server; the remaining %d behaviours of this group are not run" % (flavour, len(behaviours) - start))
+                break
     with open(trace, "w") as f:
         f.write("\n".join(all_lines) + "\n")
     return [json.loads(x) for x in all_lines], trace
